@@ -374,7 +374,13 @@ static rc::Gen<Case> gen_dh(int) {
 static std::string g_secret;
 static std::string g_secret_hit;
 static void keyfile_free(void *p, size_t n) {
-  if (g_secret.size() >= 8 && n >= g_secret.size() && memmem(p, n, g_secret.data(), g_secret.size())) g_secret_hit = "a block of " + std::to_string(n) + " bytes handed to free() still contains the secret key";
+  // any 8 consecutive characters of the secret count (a partial wipe is not a wipe)
+  if (g_secret.size() >= 8 && n >= 8 && g_secret_hit.empty())
+    for (size_t off = 0; off + 8 <= g_secret.size(); off++)
+      if (memmem(p, n, g_secret.data() + off, 8)) {
+        g_secret_hit = "a block of " + std::to_string(n) + " bytes handed to free() still contains characters " + std::to_string(off) + ".." + std::to_string(off + 7) + " of the secret key";
+        break;
+      }
 }
 static Outcome run_keys(const Case &c) {
   Outcome o;
